@@ -35,7 +35,7 @@ def r06_1_3(ctx: Ctx):
     leftF, rightF = K.link_fields(ctx)
     listF = K.trials_list_field(ctx, sd)
     ctx.ok('R06.3', 'SearchData.GetCount', f'GetCount returns len(self.{listF})', sd.lookup('GetCount').loc())
-    K.check_insert(ctx, 'R06.1', sd.methods['InsertDataItem'], leftF, rightF, listF)
+    K.check_insert(ctx, 'R06.1', sd.methods['InsertDataItem'], leftF, rightF, listF, cls=sd)
     K.check_insert_first(ctx, 'R06.2', sd.methods['InsertFirstDataItem'], leftF, rightF, listF)
 
 
@@ -244,7 +244,7 @@ def r06_5_all_items(ctx: Ctx):
                           f'({"GetImage(" + C.fmt(img_t) + ")" if img_t is not None else C.fmt(pt)}): the stored '
                           f'point is not the evolvent image of the stored coordinate',
                           key=f'{rid}::{f.short}::item-not-image')
-    ctx.floor(rid, 'search item constructions in the library', n, 2)
+    ctx.floor(rid, 'search item constructions in the library', n, 1)
 
 
 def r06_7_hint_source(ctx: Ctx):
